@@ -163,3 +163,48 @@ Proof.
       try (destruct (H1 eq_refl); discriminate); try (destruct (H2 eq_refl); discriminate).
 Qed.
 
+
+(* C01: a hello reply carrying a session id is sent only for credentials that verify: protocol 1.0
+   params the configured backend accepted, an internal token that matches (tok = 0 stands for
+   "token = HMAC(secret, random), random long enough", established by the harness with the real
+   HMAC), or the private resume id of a live session *)
+Definition credentials_verify (h : hub) (hl : hello) : Prop :=
+  match hl with
+  | HV1 b u reject => (b <? h.(h_nb)) = true /\ reject = false
+  | HInternal b tok _ _ => (b <? h.(h_nb)) = true /\ tok = 0
+  | HResume (IdPriv n) => exists s, get_sess h n = Some s /\ is_virtual s.(s_kind) = false
+  | HResume _ => False
+  end.
+
+Lemma register_outs h c cn b k u m :
+  In (ToConn c m) (snd (register h c cn b k u)) -> (exists e, m = SError e) \/ (exists sid, m = SHello sid u).
+Proof.
+  unfold register. match goal with |- context [if ?cond then _ else _] => destruct cond end; cbn [snd].
+  - intros [H|[]]. injection H as <-. left. eauto.
+  - intros [H|[]]. injection H as <-. right. eauto.
+Qed.
+
+Lemma hello_reply_sound h c cn hl sid u :
+  aget h.(h_conns) c = Some cn -> cn.(c_sess) = None ->
+  In (ToConn c (SHello sid u)) (snd (step h (OHello c hl))) -> credentials_verify h hl.
+Proof.
+  intros Hc Hs. cbn [step]. rewrite Hc, Hs.
+  set (h' := set_conns h (aset (h_conns h) c (mkconn (c_addr cn) None (match hl with HResume _ => c_expect cn | _ => false end)))).
+  assert (Hnb : h_nb h' = h_nb h) by reflexivity.
+  unfold do_hello. destruct hl as [b u0 rej|b tok f d|i]; cbn [credentials_verify].
+  - destruct (h_nb h' <=? b) eqn:Hb; cbn [snd].
+    { intros [H|[]]. discriminate. }
+    destruct rej; cbn [snd].
+    { intros [H|[H|[]]]; discriminate. }
+    intros _. split; [|reflexivity]. rewrite Hnb in Hb. apply N.leb_gt in Hb. now apply N.ltb_lt.
+  - destruct (throttled h' (c_addr cn) ACT_INTERNAL); cbn [snd]; [intros [H|[]]; discriminate|].
+    destruct (N.eqb_spec tok 0) as [->|]; cbn [negb snd]; [|intros [H|[]]; discriminate].
+    destruct (h_nb h' <=? b) eqn:Hb; cbn [snd]; [intros [H|[]]; discriminate|].
+    intros _. split; [|reflexivity]. rewrite Hnb in Hb. apply N.leb_gt in Hb. now apply N.ltb_lt.
+  - destruct (throttled h' (c_addr cn) ACT_RESUME); cbn [snd]; [intros [H|[]]; discriminate|].
+    destruct i as [n|n|k|n]; cbn [snd]; try (intros [H|[]]; discriminate).
+    assert (Hg : get_sess h' n = get_sess h n) by reflexivity. rewrite Hg.
+    destruct (get_sess h n) as [s|]; cbn [snd]; [|intros [H|[]]; discriminate].
+    destruct (is_virtual (s_kind s)) eqn:Hv; cbn [snd]; [intros [H|[]]; discriminate|].
+    intros _. eauto.
+Qed.
